@@ -245,6 +245,7 @@ class Ctx:
         self.live_refs = []
         self.trace = []            # readable path description
         self.pyghost = {}          # python-side ghost bookkeeping of sidecars (per path)
+        self.fresh_ids = set()     # z3 ids of objects allocated on this path (pairwise distinct)
         self._solver = None
 
     # ---- symbols
@@ -258,6 +259,8 @@ class Ctx:
             for o in self.live_refs:
                 self.assume(r != o)
         self.live_refs.append(r)
+        if distinct:
+            self.fresh_ids.add(r.get_id())
         return SRef(r, pytype)
 
     def strconst(self, s):
@@ -356,7 +359,10 @@ class Ctx:
             goal = z3.BoolVal(goal)
         s = z3.simplify(goal)
         if not z3.is_true(s):
-            self.obligations.append(Obligation(name, list(self.assumptions), goal, tuple(tags), self.sig()))
+            ob = Obligation(name, list(self.assumptions), goal, tuple(tags), self.sig(),
+                            axioms=tuple(self.world.axioms))
+            ob.trace = ' '.join(self.trace[-60:])
+            self.obligations.append(ob)
         else:
             self.obligations.append(Obligation(name, [], z3.BoolVal(True), tuple(tags), self.sig()))
         if assume_after:
@@ -366,7 +372,7 @@ class Ctx:
         if self.dry:
             return
         self.obligations.append(Obligation(name, list(self.assumptions), z3.BoolVal(True), tuple(tags),
-                                           self.sig(), kind='cover'))
+                                           self.sig(), kind='cover', axioms=tuple(self.world.axioms)))
 
     def fail(self, name, why='', tags=()):
         """This program point must be unreachable (definedness, TypeError, blocking call...)."""
@@ -384,7 +390,19 @@ class Ctx:
     def hget(self, ref, field):
         if isinstance(ref, SRef):
             ref = ref.e
-        return z3.Select(self.harr(field), ref)
+        arr = self.harr(field)
+        # resolve reads through stores to *other freshly allocated objects* (pairwise distinct by construction)
+        rid = ref.get_id()
+        if rid in self.fresh_ids:
+            while z3.is_store(arr):
+                k = arr.arg(1)
+                if k.eq(ref):
+                    return arr.arg(2)
+                if k.get_id() in self.fresh_ids:
+                    arr = arr.arg(0)
+                else:
+                    break
+        return z3.Select(arr, ref)
 
     def hset(self, ref, field, val):
         if isinstance(ref, SRef):
@@ -544,6 +562,7 @@ class World:
         self.dropped = set()        # what extraction dropped on this run (reported)
         self.decorated = {}         # cache: (class, method) -> SFunc (outermost wrapper)
         self.user_signal = None
+        self.local_types = {}       # (function path, local name) -> pytype (sidecar typing of locals)
         self.pytype_overrides = {}  # (owner pytype, field) -> pytype
         self.dynamic_attrs = {'*': {'state_name', 'state_fn', 'spied_on'}}
 
